@@ -14,6 +14,7 @@ import KafkaVerif.Model.FetcherLife
 import KafkaVerif.Lemmas.FetcherLife
 import KafkaVerif.Lemmas.ReaderCloseSystem
 import KafkaVerif.Lemmas.GroupConns
+import KafkaVerif.Lemmas.WriterCloseDetail
 
 namespace KV.C09
 open KV.WriterClose
@@ -738,5 +739,49 @@ theorem reader_system_close_progress (c : Group.Cfg) (s : ReaderCloseSystem.Stat
     ∃ e, (ReaderCloseSystem.internal e = true ∨ ∃ gi acc, e = .group (.gStart gi acc)) ∧
       (ReaderCloseSystem.step c s e).isSome :=
   ReaderCloseSystem.system_progress c s hi hm hw
+
+end KV.C09
+
+/-! ## Writer.Close on the detailed Writer model (Model/Writer.lean, tied deterministically by C01/C07/C08) -/
+namespace KV.C09
+
+/-- **writer_detail_close_return_complete** — on the writer builder's 25-event Writer LTS (every hook event of
+writer.go is one model event; C01/C07/C08 replay the recorded hook traces through it one-to-one): in every reachable
+state in which `Close` may return (`closeReturn` enabled: closed, WaitGroup counter zero, every partition writer's
+goroutine exited)
+* every WriteMessages call that ever began has returned,
+* every batch ever created is done, and with a Completion callback configured the callback ran exactly once for it,
+  with the batch's final error code,
+* every message of every call that got through `batchMessages` (result ok / async / ctx / write errors) sits in such
+  a batch: it was sent, or its attempts were exhausted, before Close returned.
+This is `all_completed_before_close_return` restated on the model whose tie is deterministic; the liveness half
+(`close_terminates`) stays on Model/WriterClose. -/
+theorem writer_detail_close_return_complete (cfg : KV.Writer.Cfg) (s s' : KV.Writer.State)
+    (hr : KV.Writer.Reachable cfg s) (hs : KV.Writer.step cfg s .closeReturn = some s') :
+    (∀ c C, s.calls c = some C → C.phase = .returned) ∧
+    (∀ b B, s.batches b = some B → ∃ code, B.done = some code ∧
+       (cfg.completion = true → B.ncompl = 1 ∧ B.cbCode = some code) ∧ (cfg.completion = false → B.ncompl = 0)) ∧
+    (∀ c C, s.calls c = some C → KV.WriterCloseDetail.accepted C = true → ∀ i, i < C.msgs.length →
+       ∃ b B code, C.place i = some b ∧ s.batches b = some B ∧ (∃ m ∈ B.msgs, m.msg = (c, i)) ∧ B.done = some code) :=
+  KV.WriterCloseDetail.close_return_complete cfg s s' hr hs
+
+/-- the invariants behind it hold in every reachable state of the detailed model -/
+theorem writer_detail_close_invariants (cfg : KV.Writer.Cfg) (s : KV.Writer.State) (hr : KV.Writer.Reachable cfg s) :
+    KV.WriterCloseDetail.DI s ∧ KV.WriterCloseDetail.CI s ∧ KV.WriterCloseDetail.AI s :=
+  ⟨KV.WriterCloseDetail.di_reachable cfg s hr, KV.WriterCloseDetail.ci_reachable cfg s hr,
+   KV.WriterCloseDetail.ai_reachable cfg s hr⟩
+
+/-- not vacuous: a run of the detailed model in which Close begins while a batch is still queued, the batch is then
+sent, its Completion runs, the call returns, the sender exits and Close returns -/
+def detailCfg : KV.Writer.Cfg :=
+  { batchSize := 1, batchBytes := 100, maxAttempts := 1, async := false, completion := true, topic := "t",
+    retriable := fun _ => false }
+
+example : KV.Writer.accepts detailCfg
+    [.enter true, .begin_ 1 [{ size := 1, topic := "" }], .assign 1 0 ("t", 0), .batch 1,
+     .newPW 1 1 ("t", 0), .newBatch 1 1, .add 1 1 1 0 1, .detach 1 1 .full 0, .qput 1 1 true, .batched 1,
+     .closeBegin, .qclose 1, .closeMarked 1,
+     .qget 1 (some 1), .attempt 1 1 0, .produce 1 ("t", 0) [(1, 0)] .acked, .attemptDone 1 1 0 0,
+     .completion 1 1 0, .complete 1 1 0, .ret 1 .ok, .qget 1 none, .closeReturn] = true := by decide
 
 end KV.C09
